@@ -570,6 +570,9 @@ func c02Facts(root string) ([][2]string, []string, error) {
 }
 
 func c02Tool(args []string) int {
+	if len(args) == 1 && args[0] == "probe" {
+		return c02ProbeTool()
+	}
 	if len(args) != 2 || args[0] != "facts" {
 		fmt.Fprintln(os.Stderr, "usage: harness C02 -tool facts <out.lean>")
 		return 2
